@@ -527,6 +527,18 @@ func (e *Engine) applyStore(c *StoreCall, fault string, serial int) {
 				c.cutAt = arg
 				c.fullLen = len(r.data)
 			}
+		case "zerotail":
+			// torn write of the other kind: the record has its full length but the last
+			// arg bytes never reached the medium and read back as zeros
+			if len(data) > 0 {
+				n := arg
+				if n > len(data) {
+					n = len(data)
+				}
+				for i := len(data) - n; i < len(data); i++ {
+					data[i] = 0
+				}
+			}
 		case "garbage":
 			x := uint64(arg)*2654435761 + 12345
 			for i := range data {
@@ -548,7 +560,7 @@ func (e *Engine) applyStore(c *StoreCall, fault string, serial int) {
 		case "drop":
 			return // acknowledged, silently lost
 		}
-		rec := diskRec{data: c.Data}
+		rec := diskRec{data: append([]byte(nil), c.Data...)}
 		if c.TTL > 0 {
 			rec.expireMs = now + c.TTL.Milliseconds()
 		} else {
@@ -676,7 +688,15 @@ func (e *Engine) crashRestart(i int, op *Op) {
 					lost++
 				default:
 					cut := e.wrng.IntN(len(p.rec.data))
-					p.rec.data = p.rec.data[:cut]
+					if e.wrng.IntN(2) == 0 {
+						p.rec.data = p.rec.data[:cut]
+					} else {
+						d := append([]byte(nil), p.rec.data...)
+						for i := cut; i < len(d); i++ {
+							d[i] = 0
+						}
+						p.rec.data = d
+					}
 					keep = append(keep, p)
 					torn++
 				}
@@ -695,6 +715,9 @@ func (e *Engine) crashRestart(i int, op *Op) {
 	} else {
 		for _, url := range urls {
 			e.disks[url].sync()
+			if op.Wipe {
+				e.disks[url] = newDisk()
+			}
 		}
 		e.hist.FaultFired["stop"]++
 	}
@@ -709,6 +732,9 @@ func (e *Engine) crashRestart(i int, op *Op) {
 	pikeupstream.ResetWithOnStats(nil, nil)
 	pikelocation.Reset(nil)
 	resetCompressDefaults()
+	for _, st := range e.stores {
+		st.setClosed(false) // a new process opens its stores anew
+	}
 	e.epoch++
 	// restart with the current configuration on the same store
 	cfg := &e.plan.Configs[e.curCfg]
